@@ -4,7 +4,8 @@
 // then, if VERIF_ARGV_PRINT=1, prints its own location (os.Executable), ": ", and its arguments joined by
 // one space and a newline (nothing if one
 // of the arguments is --quiet), and exits with status N if its last argument of the form --exit=N says so
-// (scripted failing calls: the script is part of the argv, so it is a function of the argv).
+// (scripted failing calls: the script is part of the argv, so it is a function of the argv).  With an argument
+// --kill it kills itself with SIGKILL after printing (a child that started and was killed by a signal).
 package main
 
 import (
@@ -13,6 +14,7 @@ import (
 	"os"
 	"strconv"
 	"strings"
+	"syscall"
 	"time"
 )
 
@@ -43,8 +45,11 @@ func main() {
 			time.Sleep(300 * time.Microsecond)
 		}
 	}
-	quiet, code := false, 0
+	quiet, code, kill := false, 0, false
 	for _, a := range os.Args[1:] {
+		if a == "--kill" {
+			kill = true
+		}
 		if a == "--quiet" {
 			quiet = true
 		}
@@ -60,6 +65,10 @@ func main() {
 			exe = "?"
 		}
 		fmt.Println(exe + ": " + strings.Join(os.Args[1:], " "))
+	}
+	if kill {
+		syscall.Kill(os.Getpid(), syscall.SIGKILL)
+		time.Sleep(10 * time.Second)
 	}
 	os.Exit(code)
 }
